@@ -473,6 +473,25 @@ func lowerBound(v ssa.Value, facts *pfFacts, seen map[ssa.Value]bool) (int64, bo
 		if _, ok := lenArg(x); ok {
 			return 0, true
 		}
+		if lo, _, ok := apiRange(x); ok {
+			return lo, true
+		}
+		if _, ok := indexAPI(x); ok {
+			return -1, true
+		}
+		if args, ok := minLikeArgs(x); ok {
+			best, have := int64(0), false
+			for _, a := range args {
+				l, ok := lowerBound(a, facts, seen)
+				if !ok {
+					return 0, false
+				}
+				if !have || l < best {
+					best, have = l, true
+				}
+			}
+			return best, have
+		}
 	case *ssa.BinOp:
 		if c, ok := constInt(x.Y); ok {
 			if l, ok := lowerBound(x.X, facts, seen); ok {
@@ -749,6 +768,42 @@ func upperBound(v ssa.Value, facts *pfFacts) (int64, bool) {
 		return c + t.k, true
 	}
 	switch x := t.base.(type) {
+	case *ssa.Phi:
+		// the largest bound among the edges (no edge may depend on the phi itself)
+		best, have := int64(0), false
+		for _, e := range x.Edges {
+			if te := termOf(e); te.base == ssa.Value(x) {
+				return 0, false
+			}
+			if _, isPhi := termOf(e).base.(*ssa.Phi); isPhi {
+				return 0, false
+			}
+			ub, ok := upperBound(e, facts)
+			if !ok {
+				return 0, false
+			}
+			if !have || ub > best {
+				best, have = ub, true
+			}
+		}
+		if have {
+			return best + t.k, true
+		}
+	case *ssa.Call:
+		if _, hi, ok := apiRange(x); ok {
+			return hi + t.k, true
+		}
+		if args, ok := minLikeArgs(x); ok {
+			best, have := int64(0), false
+			for _, a := range args {
+				if ub, ok := upperBound(a, facts); ok && (!have || ub < best) {
+					best, have = ub, true
+				}
+			}
+			if have {
+				return best + t.k, true
+			}
+		}
 	case *ssa.BinOp:
 		if c, ok := constInt(x.Y); ok {
 			switch x.Op {
@@ -908,7 +963,49 @@ func dischargeIndex(c *Ctx, s *indexSite) (string, string, bool) {
 		l, ok := lowerBound(v, facts, map[ssa.Value]bool{})
 		return ok && l >= 0
 	}
+	lenGEDepth := 0
+	var lenGERec func(want term) bool
 	lenGE := func(want term) bool {
+		// API fact: strings.Index*/LastIndex*(S, …) < len(S) for the very string being indexed (strings are immutable)
+		if call, ok := want.base.(*ssa.Call); ok {
+			if subj, ok := indexAPI(call); ok && subj == s.X && want.k <= 1 {
+				return true
+			}
+			// min(a, b) ≤ a and ≤ b: enough that one argument is within the length
+			if args, ok := minLikeArgs(call); ok && lenGEDepth < 3 {
+				lenGEDepth++
+				defer func() { lenGEDepth-- }()
+				for _, a := range args {
+					ta := termOf(a)
+					if lenGERec(term{ta.base, ta.k + want.k}) {
+						return true
+					}
+				}
+			}
+		}
+		// API fact: i := strings.Index(S, sep), i ≥ 0  ⇒  i + len(sep) ≤ len(S)
+		if bo, ok := want.base.(*ssa.BinOp); ok && bo.Op == token.ADD && want.k <= 0 {
+			for _, pr := range [][2]ssa.Value{{bo.X, bo.Y}, {bo.Y, bo.X}} {
+				call, ok := pr[0].(*ssa.Call)
+				if !ok {
+					continue
+				}
+				subj, ok := indexAPI(call)
+				if !ok || subj != s.X {
+					continue
+				}
+				switch call.Common().StaticCallee().Name() {
+				case "Index", "LastIndex":
+				default:
+					continue
+				}
+				if lx, ok := lenArg(pr[1]); ok && lx == call.Common().Args[1] {
+					if l, ok := lowerBound(call, facts, map[ssa.Value]bool{}); ok && l >= 0 {
+						return true
+					}
+				}
+			}
+		}
 		if hasStatic {
 			if want.base == nil {
 				return slen >= want.k
@@ -920,6 +1017,7 @@ func dischargeIndex(c *Ctx, s *indexSite) (string, string, bool) {
 		}
 		return facts.lenAtLeast(key, want)
 	}
+	lenGERec = lenGE
 	switch s.Kind {
 	case "index":
 		// sort comparators: indices handed in by the sort package
@@ -1074,4 +1172,146 @@ func isSortComparator(f *ssa.Function) bool {
 		}
 	}
 	return false
+}
+
+
+// minLikeArgs: a call whose result is ≤ each of its arguments and equal to one of them — the builtin min, or a module
+// function of two int parameters that returns a parameter on every path, the first only under first ≤/< second and
+// the second only under the negation.
+func minLikeArgs(call *ssa.Call) ([]ssa.Value, bool) {
+	if bi, ok := call.Common().Value.(*ssa.Builtin); ok && bi.Name() == "min" {
+		return call.Common().Args, true
+	}
+	f := call.Common().StaticCallee()
+	if f == nil || len(f.Blocks) == 0 || len(f.Params) != 2 || f.Signature.Recv() != nil {
+		return nil, false
+	}
+	for _, p := range f.Params {
+		if !isIntType(p.Type()) {
+			return nil, false
+		}
+	}
+	a, b := ssa.Value(f.Params[0]), ssa.Value(f.Params[1])
+	// the returned value: a parameter, or a phi of parameters, each edge/return guarded by the comparison
+	okRet := func(v ssa.Value, blk *ssa.BasicBlock) bool {
+		if v != a && v != b {
+			return false
+		}
+		other := a
+		if v == a {
+			other = b
+		}
+		// blk is entered only under v ≤ other: walk the unique-predecessor chain to the deciding If
+		for cur := blk; ; {
+			if len(cur.Preds) != 1 {
+				return false
+			}
+			pred := cur.Preds[0]
+			if iff, ok := lastIf(pred); ok {
+				bo, ok := iff.Cond.(*ssa.BinOp)
+				if !ok {
+					return false
+				}
+				val := pred.Succs[0] == cur
+				rel, ok := relOf(bo.Op, val)
+				if !ok {
+					return false
+				}
+				x, y := bo.X, bo.Y
+				if x == other && y == v {
+					rel = mirror(rel)
+					x, y = y, x
+				}
+				return x == v && y == other && (rel == token.LSS || rel == token.LEQ)
+			}
+			cur = pred
+		}
+	}
+	n := 0
+	for _, blk := range f.Blocks {
+		for _, ins := range blk.Instrs {
+			r, ok := ins.(*ssa.Return)
+			if !ok {
+				continue
+			}
+			n++
+			if len(r.Results) != 1 {
+				return nil, false
+			}
+			if phi, ok := r.Results[0].(*ssa.Phi); ok {
+				for i, e := range phi.Edges {
+					if !okRet(e, phi.Block().Preds[i]) {
+						// the edge block itself may be the If block (empty arm)
+						pb := phi.Block().Preds[i]
+						iff, isIf := lastIf(pb)
+						if !isIf {
+							return nil, false
+						}
+						bo, isBo := iff.Cond.(*ssa.BinOp)
+						if !isBo || (e != a && e != b) {
+							return nil, false
+						}
+						other := a
+						if e == a {
+							other = b
+						}
+						val := pb.Succs[0] == phi.Block()
+						rel, ok := relOf(bo.Op, val)
+						if !ok {
+							return nil, false
+						}
+						x, y := bo.X, bo.Y
+						if x == other && y == e {
+							rel = mirror(rel)
+							x, y = y, x
+						}
+						if !(x == e && y == other && (rel == token.LSS || rel == token.LEQ)) {
+							return nil, false
+						}
+					}
+				}
+				continue
+			}
+			if !okRet(r.Results[0], blk) {
+				return nil, false
+			}
+		}
+	}
+	if n == 0 {
+		return nil, false
+	}
+	return call.Common().Args, true
+}
+
+// indexAPI: a strings/bytes search whose result r satisfies -1 ≤ r < len(subject); returns the subject.
+func indexAPI(call *ssa.Call) (ssa.Value, bool) {
+	cl := call.Common().StaticCallee()
+	if cl == nil || len(call.Common().Args) < 2 {
+		return nil, false
+	}
+	switch cl.String() {
+	case "strings.Index", "strings.IndexByte", "strings.IndexRune", "strings.IndexAny", "strings.IndexFunc",
+		"strings.LastIndex", "strings.LastIndexByte", "strings.LastIndexAny", "strings.LastIndexFunc",
+		"bytes.Index", "bytes.IndexByte", "bytes.IndexRune", "bytes.IndexAny", "bytes.IndexFunc",
+		"bytes.LastIndex", "bytes.LastIndexByte", "bytes.LastIndexAny", "bytes.LastIndexFunc":
+		if b, ok := call.Common().Args[0].Type().Underlying().(*types.Basic); ok && b.Info()&types.IsString != 0 {
+			return call.Common().Args[0], true
+		}
+	}
+	return nil, false
+}
+
+// apiRange: documented result ranges of standard-library functions (API facts).
+func apiRange(call *ssa.Call) (int64, int64, bool) {
+	cl := call.Common().StaticCallee()
+	if cl == nil {
+		return 0, 0, false
+	}
+	switch cl.String() {
+	case "unicode/utf8.EncodeRune":
+		return 1, 4, true // writes 1..UTFMax bytes (panics itself if the buffer is too small)
+	case "unicode/utf8.RuneLen":
+		return -1, 4, true
+	}
+	return 0, 0, false
 }
